@@ -253,3 +253,5 @@ M("c19-run-id-revert", "C19", "revert run_id schema field", "sleap_nn/config/tra
 M("c19-chunks-not-deleted", "C19", "val chunks not deleted", MT, "                if (self.val_np_chunks_path).exists():\n                    shutil.rmtree(", "                if (self.val_np_chunks_path).exists() and False:\n                    shutil.rmtree(")
 M("c19-final-config-stale", "C19", "final training_config.yaml not re-saved after training", MT, "            # save the config with wandb runid\n            self._save_config(f\"{self.dir_path}/training_config.yaml\")\n", "            # save the config with wandb runid\n            pass\n")
 M("c19-model-config-copy", "C19", "TrainingModel keeps a defensive deep copy of the config (trainer's later blanking does not reach checkpoints)", LM, "        super().__init__()\n        self.config = config\n        self.skeletons = skeletons\n", "        super().__init__()\n        import copy\n\n        self.config = copy.deepcopy(config)\n        self.skeletons = skeletons\n")
+M("c12-bu-cap-ascending", "C12", "bottom-up max_instances keeps the lowest-scoring instances", PD, "                    predicted_instances = sorted(\n                        predicted_instances, key=lambda x: x.score, reverse=True\n                    )", "                    predicted_instances = sorted(\n                        predicted_instances, key=lambda x: x.score, reverse=False\n                    )")
+M("c12-td-bbox-labels", "C12", "top-down labelled frames add the bbox bottom-right corner", PD, "                pred_instances = pred_instances + bbox.squeeze(axis=0)[0, :]\n", "                pred_instances = pred_instances + bbox.squeeze(axis=0)[2, :]\n")
